@@ -4,6 +4,7 @@ import (
 	"errors"
 	"fmt"
 	"io"
+	"strings"
 
 	"pgregory.net/rapid"
 	"verif/sim/internal/gen"
@@ -18,7 +19,7 @@ type c15 struct{ base }
 func init() {
 	runner.Register(&c15{base{
 		id: "C15", level: "fault_enumeration",
-		rule: "seeded search over written files (none/zstd/lz4/unchunked) x reader modes (lexer with chunk CRC validation off/on, scan iterator on a non-seekable source, indexed iterator in 3 orders, Info, and random access to every indexed attachment / metadata record on a seekable source); per file and mode: (a) every benign delivery policy (one byte, halving, hash-sized, data-with-EOF, hash-sized+EOF) must give exactly the full-delivery result including the terminal condition; (b) the read fault is enumerated exhaustively: an unreadable byte at EVERY position p (error delivered together with the preceding bytes, or alone on the next call; sticky or one-shot) and, on seekable sources, an error on EVERY k-th Seek call. oracle: records are a prefix of the fault-free result, no panic, and if p is needed by that reader the read ends with a non-EOF error. distinct by (config class, op-shape class, reader mode, fault kind/mode, FileMap region of p)",
+		rule: "seeded search over written files (none/zstd/lz4/unchunked) x reader modes (lexer with chunk CRC validation off/on, scan iterator on a non-seekable source, indexed iterator in 3 orders, Info, and random access to every indexed attachment / metadata record on a seekable source); per file and mode: (a) every benign delivery policy (one byte, halving, hash-sized, data-with-EOF, hash-sized+EOF) must give exactly the full-delivery result including the terminal condition; (b) the read fault is enumerated exhaustively: an unreadable byte at EVERY position p (error delivered together with the preceding bytes, or alone on the next call; sticky or one-shot), a medium that fails at EVERY k-th Read call (for good, or once) and, on seekable sources, an error on EVERY k-th Seek call. oracle: records are a prefix of the fault-free result, no panic, and if p is needed by that reader the read ends with a non-EOF error; when the medium has failed for good (every later Read fails) and the consumer calls three more times, none of those calls reports a clean EOF or panics. distinct by (config class, op-shape class, reader mode, fault kind/mode, FileMap region of p)",
 		assumptions: []string{
 			"needed-byte sets: sequential readers need every byte; indexed readers need the header, the footer and trailing magic, the summary section and the chunk records selected; a fault outside the needed set is counted as not_fired when the source never returned it",
 			"an error is delivered as (n>0, err) sticky, (0, err) on the next call sticky, or (0, err) one-shot; a one-shot (n>0, err) is not injected because io.ReadFull itself discards it; the quick tier picks one of the three per position by a hash of p, the thorough tier runs all three",
@@ -72,6 +73,9 @@ func (p *c15) runFault(sc *runner.Scenario, w *world, mode readerMode, full *seq
 		cp.Fault = &f
 		cp.Delivery = &del
 		where := fmt.Sprintf("seek call %d", f.Call)
+		if f.Kind == "read_err_call" {
+			where = fmt.Sprintf("read call %d of %d", f.Call, full.srcStats.Reads)
+		}
 		if f.Kind == "read_err" {
 			where = fmt.Sprintf("byte %d of %d (%s)", f.Off, len(w.image), regionOf(w.file, f.Off, sc.Cfg.SkipMagic))
 		}
@@ -109,6 +113,18 @@ func (p *c15) runFault(sc *runner.Scenario, w *world, mode readerMode, full *seq
 		}
 	default:
 		return mk("error_became_eof", "the source returned an I/O error but the read ended with %s", res.terminal)
+	}
+	// the source stays broken and the consumer polls again: still no clean end-of-file, no crash
+	for i, o := range res.again {
+		switch {
+		case o == "eof":
+			return mk("eof_after_error", "the read failed with %v after %d of %d records, and call %d after that reported a clean EOF although every read of the source fails", res.err, len(res.recs), len(full.recs), i+1)
+		case strings.HasPrefix(o, "panic"):
+			return mk("panic", "call %d after the read failed with %v: %s", i+1, res.err, o)
+		}
+	}
+	if len(res.again) > 0 {
+		st.Inc("probe.polled_again_after_error")
 	}
 	return nil
 }
@@ -171,6 +187,23 @@ func (p *c15) Check(sc *runner.Scenario, st *runner.Stats, pin string) *runner.V
 			st.Inc("region." + region + "|" + cfgComp(*sc.Cfg))
 			if nontrivial {
 				st.DistinctCase(gen.CfgClass(*sc.Cfg) + "|" + gen.Shape(*sc.WL) + "|" + string(mode) + "|" + f.Mode + fmt.Sprint(f.Sticky) + "|" + region)
+			}
+		}
+	}
+	// (b') the medium fails at every Read call k, wherever that call reads (the indexed reader
+	// reads the summary more than once, so a position cannot express "the second time")
+	for k := 0; k < full.srcStats.Reads; k++ {
+		all := []scen.Fault{{Kind: "read_err_call", Call: k, Sticky: true}, {Kind: "read_err_call", Call: k, Sticky: false}}
+		variants := all
+		if !thorough {
+			variants = all[scen.Mix(uint64(k), uint64(len(w.image)), 5)%2:][:1]
+		}
+		for _, f := range variants {
+			if v := p.runFault(sc, w, mode, full, f, st, pin); v != nil {
+				return v
+			}
+			if nontrivial {
+				st.DistinctCase(gen.CfgClass(*sc.Cfg) + "|" + gen.Shape(*sc.WL) + "|" + string(mode) + "|readcall" + fmt.Sprint(f.Sticky))
 			}
 		}
 	}
